@@ -15,7 +15,14 @@ import time
 from concurrent.futures import ThreadPoolExecutor
 
 VERIF = os.path.dirname(os.path.dirname(os.path.dirname(os.path.abspath(__file__))))
-COQ = os.path.join(VERIF, 'coq')
+MAIN_COQ = os.path.join(VERIF, 'coq')
+# A tree under test other than /repo (VERIF_REPO: scratch worktrees for trying fixes and seeded changes) gets its own copy of the
+# Coq development and its own evidence directory, so that such runs neither disturb nor are disturbed by checks of /repo.
+_under_test = os.path.realpath(os.environ.get('VERIF_REPO') or '/repo')
+ALT = None if _under_test == os.path.realpath('/repo') else os.path.join(
+    VERIF, '.work', 'alt-' + re.sub(r'[^A-Za-z0-9_.-]', '_', _under_test.strip('/')))
+COQ = MAIN_COQ if ALT is None else os.path.join(ALT, 'coq')
+EVIDENCE = os.path.join(VERIF, 'evidence') if ALT is None else os.path.join(ALT, 'evidence')
 THEORIES = os.path.join(COQ, 'theories')
 LOCK = os.path.join(COQ, '.buildlock')
 LIB = 'QT'
@@ -64,6 +71,26 @@ def write_gen(relname, content):
     from harness.common import repo as _repo
     content = content.replace(_repo.REPO.rstrip('/') + '/', '<repo>/').replace(_repo.REPO, '<repo>')
     return _write_if_changed(path, content)
+
+
+def _ensure_alt():
+    """first use of an alternative tree: copy the main development (sources and compiled files) under the main lock"""
+    if ALT is None or os.path.isdir(os.path.join(COQ, 'theories')):
+        return
+    import shutil
+    os.makedirs(ALT, exist_ok=True)
+    with open(os.path.join(MAIN_COQ, '.buildlock'), 'w') as f:
+        fcntl.flock(f, fcntl.LOCK_EX)
+        try:
+            if not os.path.isdir(os.path.join(COQ, 'theories')):
+                tmp = COQ + '.tmp%d' % os.getpid()
+                shutil.copytree(MAIN_COQ, tmp, symlinks=True, ignore=shutil.ignore_patterns('.buildlock', '*.tmp*', '.lia.cache'))
+                os.rename(tmp, COQ)
+        finally:
+            fcntl.flock(f, fcntl.LOCK_UN)
+
+
+_ensure_alt()
 
 
 class Lock:
@@ -211,14 +238,28 @@ def print_assumptions(props_vrel):
     return p.returncode == 0, p.stdout + p.stderr
 
 
-def coqchk(props_vrel, timeout=1500):
-    """independent re-check of the compiled Props file and everything it depends on; -> (ok, axioms reported, tail of output)"""
+def coqchk(props_vrel, timeout=1500, workdir=None):
+    """independent re-check of the compiled Props file and everything it depends on; -> (ok, axioms reported, tail of output).
+    The compiled files of the cone are copied (under the build lock) and checked from the copy, so that a long coqchk run
+    neither blocks nor is disturbed by other checks rebuilding the tree."""
+    import shutil
+    import tempfile
     lib = LIB + '.' + props_vrel[len('theories/'):-2].replace('/', '.')
-    with Lock():
+    os.makedirs(os.path.join(VERIF, '.work'), exist_ok=True)
+    base = tempfile.mkdtemp(prefix='coqchk-', dir=workdir or os.path.join(VERIF, '.work'))
+    try:
+        with Lock():
+            for v in cone(props_vrel):
+                src = os.path.join(COQ, v[:-2] + '.vo')
+                dst = os.path.join(base, v[:-2] + '.vo')
+                os.makedirs(os.path.dirname(dst), exist_ok=True)
+                shutil.copy2(src, dst)
         p = subprocess.run(
             ['timeout', str(timeout), 'coqchk', '-silent', '-o', '-R', 'theories', LIB, lib],
-            cwd=COQ, capture_output=True, text=True,
+            cwd=base, capture_output=True, text=True,
         )
+    finally:
+        shutil.rmtree(base, ignore_errors=True)
     out = p.stdout + p.stderr
     axioms = []
     m = re.search(r'\* Axioms:(.*?)(?:\n\* |\Z)', out, flags=re.S)
